@@ -50,7 +50,8 @@ def required_cells(tier):
             "arg:subset-size-1", "arg:subset-size-k-1", "meta:rename", "meta:reorder", "meta:scale",
             "class:enum", "class:random", "names:substring-related", "meta:rename-case-variants",
             "class:clustering", "clustering:platforms>=4", "clustering:>=4-distinct-distances", "clustering:average-marker",
-            "summary-report", "summary-report:nan", "name:empty-string"]
+            "summary-report", "summary-report:nan", "name:empty-string", "name:glob-metacharacters",
+            "filetree:platform-added-between-printouts"]
 
 
 # ---------------------------------------------------------------- oracle --
@@ -161,6 +162,8 @@ def random_tables(ctx):
         if rng.random() < 0.3:
             names = [rng.choice(["cpu", "gpu", "x", "Z", "a b", "é", "0"]) + str(j) for j in range(k)]
             names[0] = rng.choice(["", "0", names[0]])          # falsy / blank names are names too
+            if k >= 2:
+                names[1] = rng.choice(["gpu[0]", "sm_*", "a?b", "[!x]", names[1]])      # names that are glob patterns
         elif rng.random() < 0.4:
             names = ["p" * (j + 1) for j in range(k)]       # p, pp, ppp: every name is a substring of the next
         elif rng.random() < 0.3:
@@ -208,6 +211,8 @@ def check_table(rows, report, watch, rng):
         cells.add("row:empty-set")
     if "" in ps:
         cells.add("name:empty-string")
+    if any(ch in p for p in ps for ch in "[*?"):
+        cells.add("name:glob-metacharacters")
     if any(v == 0 for v in table.values()):
         cells.add("row:zero-count")
     for p in ps:
@@ -399,6 +404,60 @@ def check_clustering(rows, report, workdir):
     return problems[:4], cells
 
 
+def check_filetree(rng, report, workdir):
+    """Library use of report.FileTree: files inserted, the tree printed, a file that brings a NEW platform inserted, the
+    tree printed again.  Every row of the second printout (platform letters, SLOC, coverage, average coverage) is
+    recomputed from the per-file tables over the platforms present at that moment."""
+    import io
+    import shutil
+    from cbimon import cli
+    from cbimon.props import c06
+    root = os.path.join(workdir, "ft")
+    shutil.rmtree(root, ignore_errors=True)
+    os.makedirs(os.path.join(root, "sub", "deep"))
+    names = ["a.c", "sub/b.c", "sub/deep/c.c", "sub/d.h", "e.c"]
+    plats = rng.sample(["cpu", "gpu", "fpga", "gpu[0]", "sm_*", "a?"], rng.randint(2, 4))
+    late = rng.choice(["tpu", "Zeta", "x[1]"])
+    tables = {}
+    for i, n in enumerate(names):
+        with open(os.path.join(root, n), "w") as f:
+            f.write("int x;\n")
+        pool = plats + ([late] if i == len(names) - 1 else [])
+        t = {}
+        for _ in range(rng.randint(1, 4)):
+            key = frozenset(p for p in pool if rng.random() < 0.5)
+            t[key] = t.get(key, 0) + rng.randint(1, 40)
+        if i == len(names) - 1:
+            t[frozenset([late])] = t.get(frozenset([late]), 0) + 3
+        tables[n] = t
+    tree = report.FileTree(root)
+    problems = []
+    try:
+        import collections
+        for n in names[:-1]:
+            tree.insert(os.path.join(root, n), collections.defaultdict(int, tables[n]))
+        tree.write_to(io.StringIO())
+        tree.insert(os.path.join(root, names[-1]), collections.defaultdict(int, tables[names[-1]]))
+        buf = io.StringIO()
+        tree.write_to(buf)
+        legend, rows = cli.parse_tree(buf.getvalue())
+        got = c06.tree_rows_by_path(rows)
+        fsm = {os.path.join(root, n): (False, tables[n], {}, []) for n in names}
+        allp = set().union(*[set(k) for t in tables.values() for k in t])
+        want, order = c06.expected_tree(root, fsm, allp)
+        if set(got) != set(want):
+            problems.append({"metric": "filetree-rows", "args": None, "expected": sorted(want), "observed": sorted(got)})
+        else:
+            for path, (letters, total, cov, avg, is_link) in want.items():
+                r = got[path]
+                if r["platforms"] != letters or r["sloc"] != str(total) or not c06.close2(r["cov"], cov) or not c06.close2(r["avg"], avg):
+                    problems.append({"metric": "filetree-row-after-a-platform-was-added", "args": path,
+                                     "expected": [letters, total, str(cov), str(avg)], "observed": [r["platforms"], r["sloc"], r["cov"], r["avg"]]})
+    except Exception as e:
+        problems.append({"metric": "filetree", "args": None, "expected": "two printouts", "observed": f"{type(e).__name__}: {e}"})
+    return problems[:4], {"filetree:platform-added-between-printouts"}, {n: {",".join(sorted(k)): v for k, v in t.items()} for n, t in tables.items()}
+
+
 def classify(problem, rows):
     """Mechanism key of a violation (known-finding predicates; see known_findings.json)."""
     table = mk(rows)
@@ -460,6 +519,14 @@ def run_shard(ctx):
                              nontrivial=sorted(map(list, rows)))
             else:
                 acc.held(cells=cells, cls="clustering", nontrivial=sorted(map(list, rows)))
+    frng = ctx.rng(f"filetree{ctx.shard}")
+    for _ in range(6 if ctx.quick else 60):
+        problems, cells, tables = check_filetree(frng, report, work)
+        acc.hook("report.FileTree")
+        if problems:
+            acc.violated({"input": {"tables": tables}, "witness": {"tables": tables, **problems[0], "all": problems}}, cells=cells, cls="filetree")
+        else:
+            acc.held(cells=cells, cls="filetree", nontrivial=tables)
     acc.hook("report-function-calls", watch.calls)
 
 
